@@ -72,21 +72,24 @@ type BackendCall struct {
 
 // Op is one client operation against a front end.
 type Op struct {
-	ID        int
-	Party     string
-	Replica   int
-	Kind      string // endpoint or pseudo kind
-	Method    string
-	Path      string
-	Query     string
-	Body      []byte
-	Bad       string // non-empty: deliberately bad request of this class
-	Sub       *Submission
-	Deadline  time.Duration
-	Legacy    bool
-	Sibling   bool // C01: sent to the sibling log of the same process (its own key and backend)
-	Retried   bool // external modes: the submission was refused over a chain-store fault and has been retried once
-	SlowWrite bool // the client reads the response slowly: Write parks before taking the bytes
+	ID       int
+	Party    string
+	Replica  int
+	Kind     string // endpoint or pseudo kind
+	Method   string
+	Path     string
+	Query    string
+	Body     []byte
+	Bad      string // non-empty: deliberately bad request of this class
+	Sub      *Submission
+	Deadline time.Duration
+	Legacy   bool
+	Sibling  bool // C01: sent to the sibling log of the same process (its own key and backend)
+	// CallerDeadline: the request arrives with a deadline of its own (a timeout middleware in front of the log's
+	// handlers, a client that says how long it will wait), shorter than the instance's RPC deadline
+	CallerDeadline time.Duration
+	Retried        bool // external modes: the submission was refused over a chain-store fault and has been retried once
+	SlowWrite      bool // the client reads the response slowly: Write parks before taking the bytes
 	// WriteFailed: the client's connection broke while the response was being written (a Write returned an error,
 	// possibly after taking part of the bytes): nobody received this response, so nobody judges it
 	WriteFailed bool
@@ -596,6 +599,11 @@ func Serve(s *kernel.Sim, inst *ctfe.Instance, prefix string, op *Op, parent con
 	var body io.Reader
 	if op.Body != nil {
 		body = bytes.NewReader(op.Body)
+	}
+	if op.CallerDeadline > 0 {
+		var cancel context.CancelFunc
+		ctx, cancel = context.WithTimeout(ctx, op.CallerDeadline)
+		defer cancel()
 	}
 	req, err := http.NewRequestWithContext(ctx, op.Method, target, body)
 	if err != nil {
